@@ -1680,12 +1680,12 @@ func loopInvariants(c *Ctx, fn *ssa.Function) []loopInv {
 			if offsP != nil {
 				g := func(env *linEnv) Lin { return env.norm(offsP).add(env.norm(phv), -1) }
 				if r := proveH(c, fn, last, g, nil, 0); r.ok {
-					out = append(out, loopInv{phv, g, "loop invariant " + offsP.Name() + " <= " + phv.Comment, r.assumed})
+					out = append(out, loopInv{phv, g, "loop invariant " + offsP.Name() + " <= " + phiName(phv), r.assumed})
 				}
 			}
 			g2 := func(env *linEnv) Lin { return env.norm(phv).add(env.lenLin(bp), -1) }
 			if r := proveH(c, fn, last, g2, nil, 0); r.ok {
-				out = append(out, loopInv{phv, g2, "loop invariant " + phv.Comment + " <= len(" + bp.Name() + ")", r.assumed})
+				out = append(out, loopInv{phv, g2, "loop invariant " + phiName(phv) + " <= len(" + bp.Name() + ")", r.assumed})
 			}
 		}
 	}
